@@ -130,7 +130,9 @@ class n0dict_(n0dict__):
                     elif isinstance(value, str):
                         if not key.startswith("@"):
                             result += f"<{key}>"
-                            if value.lstrip().upper().startswith("<![CDATA[") and value.rstrip().endswith("]]>"):
+                            cdata = value.strip()
+                            # pass through only a value that is exactly one CDATA section (the marker is case-sensitive in XML)
+                            if cdata.startswith("<![CDATA[") and cdata.endswith("]]>") and "]]>" not in cdata[9:-3]:
                                 result += f"\n{' '*(indent+inc_indent)}{value}\n{' '*indent}"
                             else:
                                 result += value.translate(xml_entities)
